@@ -1,12 +1,15 @@
 import broker_common as bc
 MANIFEST = {
- 'text': 'Theorems about Model/Broker.v (validated against the real MetaStore on every run): C10_refused_while_migrating (every scaling/config '
-         'operation on a migrating cluster returns an error and leaves the cluster unchanged) and C10_release_only_empty (chunks leave a cluster only '
-         'when they own no stable, migrating or importing range). The completion clauses (all commits in any order end with no pending migration, all 16384 '
-         'slots stable, counts differing by at most one, trailing chunks slot-less) are evaluated by the independent monitors of harness/broker/src/mon.rs on the '
-         'real store after every operation of every generated history (chains of resizes, random commit orders, interleaved failovers, limits 0-2), and the '
-         'slot-conservation half is covered by the C01 invariant; the balance arithmetic of the planners is not yet a theorem.',
- 'note': 'PARTIAL: balance-at-quiescence is checked by monitors on the implementation, not proved. Coq kernel, closed theorems; extraction; harness/broker; oracle for allocator choices.',
+ 'text': 'Theorems about Model/Broker.v (validated against the real MetaStore on every run): C10_scale_out_completes / C10_scale_in_completes (from every reachable '
+         'store, once a scale-out / scale-in request is accepted, ANY script of commits in any order (stale and repeated descriptors included), failovers and role '
+         'rebalances containing as many successful commits as migrations were created ends with no pending migration, every kept master holding exactly '
+         'share(2k, i) = 16384/(2k) (+1 for the first 16384 mod 2k) stable slots - so counts differ by at most one (C10_shares_differ_by_at_most_one) -, all 16384 slots '
+         'stable, and exactly the trailing chunks slot-less); C10_balance_invariant (projected balance in every reachable state); C10_commits_drain (each successful commit '
+         'removes exactly one pending migration: termination); C10_planners_no_panic (no usize underflow / failed expect in the two planners on reachable stores); '
+         'C10_refused_while_migrating; C10_release_only_empty. Correspondence and independent monitors as for C01 (balance at quiescence, trailing empties, release '
+         'rule, refusal while migrating evaluated on the real store after every operation).',
+ 'note': 'Coq kernel, theorems closed under the global context; extraction; harness/broker; oracle for allocator choices. The proofs exposed two genuine defects that '
+         'were repaired (scale-down need_num = 0; more masters than slots). Real-time aspects (coordinator actually issuing the commits) are C07.',
  'technique': 'Coq proof over a hand-written model + differential correspondence check against the real code',
 }
 def big_scale_down():
